@@ -290,15 +290,23 @@ class manage_runners:
 
     def ensures(c, self, result):
         gr = c.ctx.E.event_kind("gather-raised")
+        ge = c.ctx.ghost.get("gather_raised_exc")
+        absorbed_ok = False
+        if ge is not None:
+            gv = c.view_term(ge.t, TExc(), c.new_heap)
+            # the only failures the managing coroutine may absorb are the two asyncio carries out of the loop BY ITSELF (see asyncio.run's assumed contract)
+            absorbed_ok = c.And(closed_under_shield(c, self), c.Or(gv.isa("KeyboardInterrupt"), gv.isa("SystemExit")))
         return {
             "running-cleared": c.Not(flag(self.running, "isset")),
-            "returns-normally-only-when-nothing-failed-or-on-KeyboardInterrupt-after-closing-all-runners": c.Or(
-                c.Not(has_event(c, lambda e: Event.e_kind(e) == gr)), closed_under_shield(c, self)),
+            "returns-normally-only-when-nothing-failed-or-after-closing-all-runners-on-an-exception-the-loop-carries-out-itself": c.Or(
+                c.Not(has_event(c, lambda e: Event.e_kind(e) == gr)), absorbed_ok),
         }
 
     def _reraises(c, self, exc):
-        return c.And(c.Not(flag(self.running, "isset")),
-                     c.Or(c.And(gather_raised(c, exc.t), closed_under_shield(c, self), c.Not(exc.isa("KeyboardInterrupt"))),
+        # (side condition of asyncio.run's assumed contract) a KeyboardInterrupt / SystemExit re-raised from the managing task while asyncio.run
+        # cleans up is carried out of THAT cleanup at once: the executor threads - the trio thread with its shielded cleanup - are then not joined
+        return c.And(c.Not(flag(self.running, "isset")), c.Not(exc.isa("KeyboardInterrupt")), c.Not(exc.isa("SystemExit")),
+                     c.Or(c.And(gather_raised(c, exc.t), closed_under_shield(c, self)),
                           c.Not(has_event(c, lambda e: Event.e_kind(e) == c.ctx.E.event_kind("gather-raised")))))
 
     raises = {"BaseException": _reraises}
